@@ -1,8 +1,10 @@
 """C19 - a dry run of the scripting tool (regbot) changes nothing.
 
-(D) spec/Regbot.tla (alphabet RegbotAPI, free-script model checking RegbotMC) is checked by TLC:
-as the code is (the dry-run gate is missing in some bindings: expected counterexample = S11) and
-with every write binding gated (DryNoChange, ThrottleOk, NotBlocked, ReadSame hold).
+(D) spec/Regbot.tla (alphabet RegbotAPI, free-script model checking RegbotMC) describes the code since
+fix 003c17b (every write binding tests the dry-run switch) and is checked by TLC: DryNoChange,
+ThrottleOk, NotBlocked, ReadSame hold as invariants.  Three switches re-create other behaviours and
+must be noticed by the spec (model sanity): the code as found before the fix (Ungated: finding C19-1,
+seeded/fixrev-C19-1), a throttle slot kept on an error path (LeakOnErr: seeded/C19-1), a stubbed read.
 spec/RegbotGen.tla enumerates the regbot configs (worlds x scripts x parallel) together with what
 the design spec expects; harness/cmd/c19drv renders each to Lua/YAML and runs the REAL regbot
 binary `once --dry-run` (under strace) and `once` against model registries on 127.0.0.1 and a
@@ -17,7 +19,7 @@ import re
 
 import vlib
 
-ASIS_GATED = {"tag.delete", "m:delete", "image.copy", "image.copy+dt", "image.copy+fr"}
+ASFOUND_UNGATED = {"manifest.put", "m:put", "blob.put", "b:put", "image.importTar"}
 
 
 def cfg_key(s):
@@ -309,16 +311,17 @@ def run(ctx):
     states = trans = 0
     cex_ops = []
     if replay_conf is None:
-        asis = ctx.tlc("RegbotMC", "C19_mc_asis.cfg", label="as the code is: gates only in image.copy, <manifest>:delete, tag.delete",
-                       allow_violation=True, workers=8)
-        if asis["violated"] != "DryNoChange":
-            raise vlib.ToolError("the design spec with the code's gates should violate DryNoChange (S11), got %r" % asis["violated"])
-        m = re.findall(r'op \|-> "([^"]+)"', asis["output"].split("is violated", 1)[1])
-        cex_ops = sorted({o for o in m if o in WRITE_OPS and o not in ASIS_GATED})
-        if not cex_ops:
-            raise vlib.ToolError("as-is counterexample does not end in an ungated write binding")
-        mc = [ctx.tlc("RegbotMC", "C19_mc_quick.cfg", label="all write bindings gated: every script <= 2 statements, core alphabet", workers=8),
+        mc = [ctx.tlc("RegbotMC", "C19_mc_quick.cfg", label="every script <= 2 statements, core alphabet", workers=8),
               ctx.tlc("RegbotMC", "C19_mc_throttle.cfg", label="2 concurrent scripts, parallel 1, throttled bindings and their failure paths", workers=8)]
+        # model sanity: the switches that re-create defective behaviours must be noticed
+        asf = ctx.tlc("RegbotMC", "C19_mc_asfound.cfg", label="model sanity: the gates as found before 003c17b (C19-1) -> DryNoChange",
+                      allow_violation=True, workers=4)
+        if asf["violated"] != "DryNoChange":
+            raise vlib.ToolError("the design spec with the gates as found before the fix should violate DryNoChange, got %r" % asf["violated"])
+        m = re.findall(r'op \|-> "([^"]+)"', asf["output"].split("is violated", 1)[1])
+        cex_ops = sorted({o for o in m if o in ASFOUND_UNGATED})
+        if not cex_ops:
+            raise vlib.ToolError("as-found counterexample does not end in an ungated write binding")
         leak = ctx.tlc("RegbotMC", "C19_mc_leak.cfg", label="model sanity: image.config keeps the slot on error -> blocked",
                        allow_violation=True, workers=8)
         if not leak["violated"]:
@@ -479,7 +482,7 @@ def run(ctx):
         "api_functions": sorted(all_ops), "requests_seen_in_dry_runs": nreq, "statements": nstmt,
         "read_results_compared": compared, "solo_control_runs": solo_runs,
         "dry_runs_that_wrote_the_export_tar": tarouts,
-        "asis_counterexample_ops": cex_ops,
+        "asfound_counterexample_ops": cex_ops,
         "sandbox_bindings_found": bindings, "sandbox_bindings_gone": gone,
         "model_drift": drift, "model_drift_samples": drift_samples,
         "rejected": len(rejected), "strace": bool(meta.get("strace")),
